@@ -13,7 +13,7 @@ section
 variable {α : Type} [LinearOrder α]
 
 namespace Proc
-open AGP
+open AGP AGP.Ctl
 
 theorem minOpt_some (a b : α) : minOpt a (some b) = min a b := by
   simp only [minOpt, min_def]
